@@ -5,6 +5,8 @@ package c05
 
 import (
 	"fmt"
+	ebu "github.com/jilio/ebu"
+	ebuotel "github.com/jilio/ebu/otel"
 	"testing"
 
 	"verif/harness/internal/prog"
@@ -51,7 +53,7 @@ func TestC05(t *testing.T) {
 	for _, ctx := range []bool{false, true} {
 		for _, async := range []bool{false, true} {
 			for opt := 0; opt < 4; opt++ {
-				for pk := 0; pk <= 6; pk++ {
+				for pk := 0; pk <= 7; pk++ {
 					r := prog.Reg{Ctx: ctx, Async: async, PanicKind: pk}
 					switch opt {
 					case 1:
@@ -114,7 +116,18 @@ func TestC05(t *testing.T) {
 	}
 	for i := 0; i < n; i++ {
 		p := prog.Gen(run.Rand(uint64(i)), h.Drivers, pf[i%len(pf)])
-		h.Exec(1000000+i, p, nil, after)
+		var factory func(*prog.Engine) ebu.Observability
+		if p.Cfg.Obs && i%8 == 7 {
+			// the observer next to the panic handler is the bundled OpenTelemetry implementation
+			factory = func(*prog.Engine) ebu.Observability {
+				o, err := ebuotel.New()
+				if err != nil {
+					panic(err)
+				}
+				return o
+			}
+		}
+		h.Exec(1000000+i, p, factory, after)
 		sig, nt := sigOf(p)
 		run.Case(sig, nt)
 		if i < 2 && run.Shard == 0 {
